@@ -606,6 +606,15 @@ def compare_model(ctx, case, obs, plan, answers):
                 ctx.disagree('C03 uv weights', {'case': case, 'impl': wf_impl, 'model': wf_model})
             cls = kv['class']
             ctx.count('class:%s/%s' % (cls, rec['ft']))
+            fo_ = case['focal']
+            if (fo_['kind'] == 'ffpg' and fo_['num_airy'] is None and Fraction(fo_['q']) >= 1
+                    and Fraction(rec['lam']) * Fraction(rec['f']) == Fraction(fo_['f']) * Fraction(fo_['lam'])):
+                # theorem focalFromPupil_full_conjugate: the constructor's grid (full field of view, q >= 1) is a full
+                # conjugate at the lam*f it was built for -- for the model's grid, which was just compared with the code's
+                ctx.count('theorem:ffpg(q>=1)-is-full-conjugate')
+                if cls != 'full':
+                    ctx.disagree('C03 constructor grid not classified full (focalFromPupil_full_conjugate)',
+                                 {'case': case, 'lam': rec['lam'], 'model': cls})
             if (cls == 'full') != rec['full']:
                 ctx.disagree('C03 full-conjugate classification', {'case': case, 'lam': rec['lam'], 'model': cls, 'oracle_full': rec['full']})
             native = bool(hcipy.is_fft_grid(uv, pg))
